@@ -45,7 +45,21 @@ DOC_LINK = {
     },
 }
 
-DOCS = {"unit3": DOC_UNIT3, "unit2": DOC_UNIT2, "link": DOC_LINK}
+# a defect of the document itself: one path item whose path-level parameters hold a dangling reference; the error has a
+# path but no method (no scenario to attach it to) and sits before / between / after healthy operations
+_BROKEN_ITEM = {"parameters": [{"$ref": "#/components/parameters/Missing"}], "get": {"responses": OK}}
+
+
+def _with_broken(position: int) -> dict:
+    doc = copy.deepcopy(DOC_UNIT2)
+    paths = list(doc["paths"].items())
+    paths.insert(position, ("/z", copy.deepcopy(_BROKEN_ITEM)))
+    doc["paths"] = dict(paths)
+    return doc
+
+
+BROKEN_DOCS = {"unit2_broken_first": _with_broken(0), "unit2_broken_mid": _with_broken(1), "unit2_broken_last": _with_broken(2)}
+DOCS = {"unit3": DOC_UNIT3, "unit2": DOC_UNIT2, "link": DOC_LINK, **BROKEN_DOCS}
 
 
 def make_handler(behaviour: str) -> Callable[[], httpseam.Handler]:
